@@ -122,3 +122,93 @@ def bool_function(rows, leaves):
             raise ValueError("assignment %s selects values %s" % (env, vals))
         table[bits] = vals.pop()
     return table
+
+
+# ---------------------------------------------------------------- forward symbolic evaluation along a path
+
+class SymExec:
+    """Evaluate every assignment along an explicit block path in program order, so that
+    multiply-assigned locals (accumulators) get the value they hold at each point."""
+
+    def __init__(self, b):
+        self.b = b
+
+    def run(self, path):
+        b = self.b
+        env = {}
+        for k, x in enumerate(path):
+            blk = b.blocks[x]
+            for st in blk["stmts"]:
+                if st["k"] != "assign":
+                    continue
+                v = self.rv(st["rv"], env)
+                pl = st["place"]
+                if not pl["p"]:
+                    env[pl["l"]] = v
+            t = blk["term"]
+            if t["k"] == "call" and not t["dest"]["p"] and k + 1 < len(path):
+                f = t["func"]
+                args = tuple(self.op(a, env) for a in t["args"])
+                if f.get("indirect"):
+                    env[t["dest"]["l"]] = mir.mk("icall", self.op(f["op"], env), args)
+                else:
+                    env[t["dest"]["l"]] = mir.mk("call", f["path"], args, f.get("resolved"), tuple(f.get("args", ())))
+        return env
+
+    def op(self, o, env):
+        if o["k"] in ("copy", "move"):
+            return self.place(o["place"], env)
+        return norm(self.b.expr_op(o))
+
+    def place(self, pl, env):
+        l = pl["l"]
+        if l in env:
+            base = env[l]
+        else:
+            base = norm(self.b.expr_local(l))
+        return norm(self.b._apply_proj(base, pl["p"]))
+
+    def rv(self, rv, env):
+        k = rv["k"]
+        b = self.b
+        if k == "use":
+            return self.op(rv["op"], env)
+        if k in ("ref", "rawptr"):
+            return self.place(rv["place"], env)
+        if k == "cast":
+            return mir.mk("cast", rv["kind"], self.op(rv["op"], env), rv["ty"])
+        if k == "binop":
+            return mir.mk("binop", rv["op"], self.op(rv["a"], env), self.op(rv["b"], env))
+        if k == "unop":
+            return mir.mk("unop", rv["op"], self.op(rv["a"], env))
+        if k == "discr":
+            return mir.mk("discr", self.place(rv["place"], env))
+        if k == "agg":
+            ops = tuple(self.op(o, env) for o in rv["ops"])
+            a = rv["agg"]
+            if a == "adt":
+                names = rv["fields"] if len(rv["fields"]) == len(ops) else [str(i) for i in range(len(ops))]
+                return mir.mk("agg", rv["adt"], rv["variant"], tuple(zip(names, ops)))
+            if a == "tuple":
+                return mir.mk("tuple", ops)
+            if a == "closure":
+                return mir.mk("closure", rv["def"], ops)
+            return mir.mk("aggother", a, ops)
+        return norm(b.expr_rv(rv))
+
+
+def plain_arith(e):
+    """Strip checked-arithmetic packaging: (AddWithOverflow(a,b)).0 -> Add(a,b); integer casts are kept."""
+    if not isinstance(e, mir.E):
+        return e
+    if e[0] == "field" and e[2] == "0" and e[1][0] == "binop" and e[1][1].endswith("WithOverflow"):
+        return mir.mk("binop", e[1][1][:-len("WithOverflow")], plain_arith(e[1][2]), plain_arith(e[1][3]))
+    out = [e[0]]
+    for a in e[1:]:
+        if isinstance(a, mir.E):
+            out.append(plain_arith(a))
+        elif isinstance(a, tuple):
+            out.append(tuple(plain_arith(x) if isinstance(x, mir.E) else (tuple(plain_arith(y) if isinstance(y, mir.E) else y for y in x) if isinstance(x, tuple) else x) for x in a))
+        else:
+            out.append(a)
+    return mir.E(out)
